@@ -134,7 +134,8 @@ StepDestroy(s, ev, at) ==
         \cup If(tag = "p" /\ ~(C!Foreign(w, ky) \/ (acc /\ C!OverflowDue(w, t)) \/ (acc /\ ev.fault)),
                 {V(<<"C10", "C01">>, at, "destroy panicked without a documented reason")})
         \cup If(tag \in {"unit", "vals"} /\ acc /\ C!OverflowDue(w, t),
-                {V(<<"C08", "C10">>, at, "removal at the version limit did not panic although wrapping is not enabled")})
+                {V(IF w.aver[w.alive[t].a + 1] = C!MaxGen THEN <<"C09", "C08", "C10">> ELSE <<"C08", "C10">>, at,
+                   "removal at the version limit did not panic although wrapping is not enabled")})
         \cup If(tag = "p" /\ acc /\ C!OverflowDue(w, t) /\ ~ev.fault /\ SeqSet(ev.drops) # {},
                 {V(<<"C10">>, at, "destroy released values although it panicked on version overflow")})
     IN Finish(s, [s.W EXCEPT ![ev.w] = w1], ev, IF acc /\ removed THEN C!Ids(vals) ELSE {},
@@ -218,12 +219,16 @@ StepClone0(s, ev, at) ==
                     [a |-> w.alive[t].a,
                      vals |-> [i \in DOMAIN w.alive[t].vals |-> <<newId(w.alive[t].vals[i][1]), w.alive[t].vals[i][2]>>]]]]
         zc == C!ZCount(w)
+        into == "into" \in DOMAIN ev /\ ev.into
+        oldOwned == IF into /\ ev.dst \in DOMAIN s.W THEN C!OwnedIds(s.W[ev.dst]) ELSE {}
     IN IF ev.out[1] = "ok"
-       THEN Finish(s, (ev.dst :> w1) @@ s.W, ev, {}, TRUE, ev.dst, KeepAll,
+       THEN Finish(s, (ev.dst :> w1) @@ s.W, ev, oldOwned, TRUE, ev.dst, IF into THEN {} ELSE KeepAll,
                    If(from # C!OwnedIds(w) \/ Len(ev.clones) # Cardinality(from) \/ Cardinality(to) # Len(ev.clones),
                       {V(<<"C04", "C13">>, at, "clone did not clone each live component exactly once")})
               \cup If(ev.zc # zc, {V(<<"C04", "C13">>, at, "clone did not clone each zero-sized component exactly once")})
-              \cup If(ev.dst \in DOMAIN s.W, {V(<<"TOOL">>, at, "clone into an existing world slot")}),
+              \cup If(~into /\ ev.dst \in DOMAIN s.W, {V(<<"TOOL">>, at, "clone into an existing world slot")})
+              \cup If(into /\ \E i \in DOMAIN ev.obs : ev.obs[i].w = ev.dst /\ \E j \in DOMAIN ev.obs[i].ar : ev.obs[i].ar[j].cap < w.cap[j],
+                      {V(<<"C13", "C12">>, at, "clone_from left a capacity below the source's")}),
                    {}, 0, at)
        ELSE Finish(s, s.W, ev, to, FALSE, -1, {},
                    If(~ev.fault, {V(<<"C10", "C11">>, at, "clone panicked without an injected fault")})
@@ -273,7 +278,7 @@ StepCrash(s, ev, at) ==
                IF ev.signal # 0 THEN "the process died on a signal (memory safety)"
                ELSE "a panic escaped from a path that must not panic (internal assertion)")}]
 
-Step(s, ev, at) ==
+Step0(s, ev, at) ==
     CASE ev.op = "decl"          -> [st |-> s, v |-> {}]
       [] ev.op = "reset"         -> StepReset(s, ev, at)
       [] ev.op = "init"          -> StepInit(s, ev, at)
@@ -290,6 +295,15 @@ Step(s, ev, at) ==
       [] ev.op = "preset"        -> StepPreset(s, ev, at)
       [] ev.op = "crash"         -> StepCrash(s, ev, at)
       [] ev.op = "noop"          -> Finish(s, s.W, ev, {}, TRUE, -1, {}, {}, {}, 0, at)
+
+\* C10: the state after a panic that unwound out of an operation must satisfy everything else, so
+\* whatever is violated right after a panicking operation is (also) a C10 violation
+Step(s, ev, at) ==
+    LET r == Step0(s, ev, at)
+        panicked == "out" \in DOMAIN ev /\ ev.op # "crash" /\ ev.out[1] = "p"
+    IN IF panicked
+       THEN [r EXCEPT !.v = {[x EXCEPT !.p = IF "C10" \in SeqSet(@) \/ "TOOL" \in SeqSet(@) THEN @ ELSE @ \o <<"C10">>] : x \in @}]
+       ELSE r
 
 ---------------------------------------------------------------------------
 Init == l = 1 /\ st = EmptySt /\ viol = {} /\ pcs = ZeroPc
